@@ -229,7 +229,7 @@ def run_both(pg, script, tree, lines, workdir):
             if x == "E":
                 return set()
             return {tuple(core.unhexs(h) for h in c.split("/")) for c in x.split(",")}
-        specs.append({"strict": lst(f[0]), "ambiguous": f[1] == "1",
+        specs.append({"strict": lst(f[0]), "ambiguous": f[1] == "1", "lenient_ambiguous": f[1] == "2",
                       "lenient_word": None if f[2] == "-" else ("N" if f[2] == "N" else lst(f[2])),
                       "lenient_last": None if f[3] == "-" else ("N" if f[3] == "N" else lst(f[3])),
                       "required": calls(f[4]), "allowed": calls(f[5])})
